@@ -13,7 +13,7 @@ from . import lib
 MODULE_MC = "MC_Streaming"
 MODULE_T = "T_Streaming"
 DRV = "drv_streaming"
-IDS = ["FX02a", "FX02b", "FX02c", "FX02d", "FX02e", "FX02f", "FX02g", "FX02h"]
+IDS = ["FX02a", "FX02b", "FX02c", "FX02d", "FX02e", "FX02f", "FX02g", "FX02h", "FX02i"]
 
 INV = {
     "plan": ["CanonConforms", "AdvIdealConforms", "AdvCodeLabelled", "SlicingAgrees", "NoWasteAgrees"],
@@ -23,6 +23,7 @@ INV = {
     "rec": ["RecBounded", "RecBreaker", "RecNoRepeat", "RecStopsFirst", "RecResult", "RecJudgeAccepts", "RecNeverStuck"],
     "pool": ["PoolLimit", "PoolReuse", "PoolGuardIds"],
     "brk": ["BrkShape"],
+    "cdn": ["CdnWalkShape", "CdnWantedIsBody"],
 }
 
 
@@ -44,9 +45,9 @@ def plan(quick):
     """(family, N, K) instances of MC_Streaming."""
     if quick:
         return [("plan", 5, 3), ("ctor", 5, 0), ("rm", 0, 0), ("fo", 3, 0), ("rec", 3, 1), ("rec", 3, 3),
-                ("pool", 5, 1), ("pool", 5, 2), ("brk", 10, 0)]
-    return [("plan", 6, 3), ("plan", 4, 4), ("ctor", 7, 0), ("rm", 0, 0), ("fo", 4, 0), ("rec", 4, 1), ("rec", 4, 2), ("rec", 4, 3),
-            ("pool", 6, 1), ("pool", 6, 2), ("pool", 5, 3), ("brk", 13, 0)]
+                ("pool", 5, 1), ("pool", 5, 2), ("brk", 10, 0), ("cdn", 0, 2), ("cdn", 0, 3)]
+    return [("plan", 6, 3), ("plan", 4, 4), ("ctor", 7, 0), ("rm", 0, 0), ("fo", 4, 0), ("rec", 4, 1), ("rec", 3, 2), ("rec", 4, 3),
+            ("pool", 5, 1), ("pool", 6, 2), ("pool", 5, 3), ("brk", 13, 0), ("cdn", 0, 1), ("cdn", 0, 2), ("cdn", 0, 3)]
 
 
 def mc_cfg(ctx, family, n, k, tier, invariants, tag):
@@ -141,7 +142,8 @@ def selftest(ctx, trace, kd):
         open(p, "w").write("\n".join(ls) + "\n")
         return lib.tlc_trace(ctx, MODULE_T, cfg, p)
 
-    res = {}
+    jobs = {}   # name -> (lines of the untouched run, lines of the corrupted run, 1-based index of the touched event or None)
+
     # (a) plan (basic coalescer): an empty plan for a non-empty request
     def basic_ok(i):
         l = lines[i]
@@ -152,29 +154,37 @@ def selftest(ctx, trace, kd):
     ia = next(i for i in range(len(lines)) if basic_ok(i))
     s, e = window(ia)
     ev = json.loads(lines[ia]); ev["res"]["plan"] = []; ev["res"]["n"] = 0; ev["obs"].pop("eff", None)
-    base = judge_lines(lines[s:e], "st_a0.ndjson")
-    va = judge_lines(lines[s:ia] + [json.dumps(ev, separators=(",", ":"))] + lines[ia + 1:e], "st_a1.ndjson")
-    res["plan_emptied_flagged"] = (ia - s + 1) in va["violations"] and (ia - s + 1) not in base["violations"]
+    jobs["plan_emptied_flagged"] = (lines[s:e], lines[s:ia] + [json.dumps(ev, separators=(",", ":"))] + lines[ia + 1:e], ia - s + 1)
     # (b) rec: a successful result turned into an error
     ib = next(i for i, l in enumerate(lines) if '"op":"exec"' in l and '"res":{"id":' in l)
     s, e = window(ib)
     ev = json.loads(lines[ib]); ev["res"] = {"kind": "Err", "err": "Timeout", "code": 0, "beyond": False}
-    base = judge_lines(lines[s:e], "st_b0.ndjson")
-    vb = judge_lines(lines[s:ib] + [json.dumps(ev, separators=(",", ":"))] + lines[ib + 1:e], "st_b1.ndjson")
-    res["rec_result_flipped_flagged"] = (ib - s + 1) in vb["violations"] and (ib - s + 1) not in base["violations"]
+    jobs["rec_result_flipped_flagged"] = (lines[s:e], lines[s:ib] + [json.dumps(ev, separators=(",", ":"))] + lines[ib + 1:e], ib - s + 1)
     # (c) pool: one more active connection than guards alive
     ic = next(i for i, l in enumerate(lines) if '"op":"get"' in l and '"g":' in l)
     s, e = window(ic)
     ev = json.loads(lines[ic]); ev["obs"]["active"] += 1
-    base = judge_lines(lines[s:e], "st_c0.ndjson")
-    vc = judge_lines(lines[s:ic] + [json.dumps(ev, separators=(",", ":"))] + lines[ic + 1:e], "st_c1.ndjson")
-    res["pool_books_corrupted_flagged"] = (ic - s + 1) in vc["violations"] and (ic - s + 1) not in base["violations"]
-    # (d) drop an event that is not a run boundary (fo family: every event depends on the one before)
+    jobs["pool_books_corrupted_flagged"] = (lines[s:e], lines[s:ic] + [json.dumps(ev, separators=(",", ":"))] + lines[ic + 1:e], ic - s + 1)
+    # (d) cdn: the order of two contacted servers swapped
+    idc = next((i for i, l in enumerate(lines) if '"contacted":["' in l and len(set(json.loads(l)["obs"]["contacted"])) >= 2), None)
+    if idc is not None:
+        s, e = window(idc)
+        ev = json.loads(lines[idc]); c = ev["obs"]["contacted"]; c[0], c[1] = c[1], c[0]
+        jobs["cdn_order_swapped_flagged"] = (lines[s:e], lines[s:idc] + [json.dumps(ev, separators=(",", ":"))] + lines[idc + 1:e], idc - s + 1)
+    # (e) drop an event that is not a run boundary (fo family: every event depends on the one before)
     idd = next(i for i, l in enumerate(lines) if '"op":"fail"' in l and not lib.is_new(lines[i + 1]) and not lib.is_new(lines[i - 1]))
     s, e = window(idd)
-    base = judge_lines(lines[s:e], "st_d0.ndjson")
-    vd = judge_lines(lines[s:idd] + lines[idd + 1:e], "st_d1.ndjson")
-    res["drop_one_event_flagged"] = len(vd["violations"]) > len(base["violations"])
+    jobs["drop_one_event_flagged"] = (lines[s:e], lines[s:idd] + lines[idd + 1:e], None)
+
+    def one(item):
+        name, (base_ls, bad_ls, idx) = item
+        base = judge_lines(base_ls, f"st_{name}_0.ndjson")
+        bad = judge_lines(bad_ls, f"st_{name}_1.ndjson")
+        if idx is None:
+            return name, len(bad["violations"]) > len(base["violations"])
+        return name, idx in bad["violations"] and idx not in base["violations"]
+    with ThreadPoolExecutor(max_workers=max(2, min(lib.NCPU, len(jobs)))) as ex:
+        res = dict(ex.map(one, jobs.items()))
     ctx.cov["binding_selftest"] = res
     if not all(res.values()):
         raise lib.ToolError(f"binding self-test failed: {res}")
@@ -195,18 +205,44 @@ EXPIRY_PROGRAMS = [
 ]
 
 
+def run_expiry(ctx):
+    et = ctx.path("trace_expiry.ndjson")
+
+    def one(ip):
+        i, p = ip
+        pp, tp = ctx.path(f"prog_expiry{i}.ndjson"), ctx.path(f"trace_expiry{i}.ndjson")
+        open(pp, "w").write(json.dumps(p) + "\n")
+        return lib.run_driver(DRV, ["--programs", pp, "--out", tp, "--patience", 120]), tp
+    t0 = time.time()
+    with ThreadPoolExecutor(max_workers=len(EXPIRY_PROGRAMS)) as ex:
+        rs = list(ex.map(one, enumerate(EXPIRY_PROGRAMS)))
+    with open(et, "w") as f:
+        for _, tp in rs:
+            f.write(open(tp).read())
+    return et, rs, round(time.time() - t0, 2)
+
+
 def run(ctx):
     kd = known_findings(ctx)
     lib.build([DRV])
     if ctx.replay:
         return replay(ctx, kd)
+    bg = ThreadPoolExecutor(max_workers=1)
+    fe = None if ctx.quick or os.environ.get("X02_ONLY") else bg.submit(run_expiry, ctx)
     # ---- model checking + program generation, families in parallel
     insts = plan(ctx.quick)
     only = set(filter(None, os.environ.get("X02_ONLY", "").split(",")))      # development aid: a subset of the families
     if only:
         insts = [t for t in insts if t[0] in only]
+    nrand = 2000 if ctx.quick else 40000
+    rtrace = ctx.path("trace_random.ndjson")
+    dump = ctx.path("prog_random.ndjson")
     with ThreadPoolExecutor(max_workers=max(2, min(lib.NCPU, 6))) as ex:
+        fp = ex.submit(pinned, ctx)
+        fr = ex.submit(lib.run_driver, DRV, ["--random", nrand, "--out", rtrace, "--dump-programs", dump], env={"VERIF_SEED": ctx.seed})
         outs = list(ex.map(lambda t: mc_one(ctx, *t), insts))
+        fp.result()
+        drand = fr.result()
     allp = ctx.path("prog_all.ndjson")
     total = 0
     with open(allp, "w") as f:
@@ -220,12 +256,11 @@ def run(ctx):
                 shutil.copyfileobj(g, f)
             total += o["programs"]
             os.remove(o["progs"])
-    pinned(ctx)
     _, distinct = lib.count_distinct(allp)
     trace = ctx.path("trace_all.ndjson")
     run_programs(ctx, allp, trace, f"MC_Streaming {ctx.tier}", kd)
     ls = lib.read_lines(trace)
-    for needle in ('"fam":"plan"', '"fam":"rec"', '"fam":"pool"', '"fam":"fo"'):
+    for needle in ('"fam":"plan"', '"fam":"rec"', '"fam":"pool"', '"fam":"fo"', '"fam":"cdn"'):
         i = next((j for j in range(len(ls) - 1, -1, -1) if lib.is_new(ls[j]) and needle in ls[j]), None)
         if i is not None:
             s, e = lib.run_of_line(ls, i + 1)
@@ -234,35 +269,21 @@ def run(ctx):
         selftest(ctx, trace, kd)
     os.remove(trace)
     # ---- seeded random programs: large offsets (2^24-byte hulls at 0, 2^32, top of u64), bandwidth-scaled thresholds, long pool histories
-    nrand = 2500 if ctx.quick else 40000
-    rtrace = ctx.path("trace_random.ndjson")
-    dump = ctx.path("prog_random.ndjson")
-    d = lib.run_driver(DRV, ["--random", nrand, "--out", rtrace, "--dump-programs", dump], env={"VERIF_SEED": ctx.seed})
+    d = drand
     ctx.stage("run", source="random", programs=d.get("programs"), events=d.get("events"), wall_s=d["wall_s"])
     _, dr = lib.count_distinct(dump)
     judge_trace(ctx, rtrace, f"random seed={ctx.seed}", kd)
     total += nrand
     distinct += dr
-    # ---- thorough: real-clock expiry of the breakers (60 s windows)
-    if not ctx.quick:
-        et = ctx.path("trace_expiry.ndjson")
-
-        def one(ip):
-            i, p = ip
-            pp, tp = ctx.path(f"prog_expiry{i}.ndjson"), ctx.path(f"trace_expiry{i}.ndjson")
-            open(pp, "w").write(json.dumps(p) + "\n")
-            return lib.run_driver(DRV, ["--programs", pp, "--out", tp, "--patience", 120]), tp
-        t0 = time.time()
-        with ThreadPoolExecutor(max_workers=len(EXPIRY_PROGRAMS)) as ex:
-            rs = list(ex.map(one, enumerate(EXPIRY_PROGRAMS)))
-        with open(et, "w") as f:
-            for _, tp in rs:
-                f.write(open(tp).read())
+    # ---- thorough: real-clock expiry of the breakers (60 s windows; started at the beginning, mostly asleep)
+    if fe is not None:
+        et, rs, wall = fe.result()
         ctx.stage("run", source="expiry (real clock)", programs=sum(r.get("programs", 0) for r, _ in rs),
-                  events=sum(r.get("events", 0) for r, _ in rs), wall_s=round(time.time() - t0, 2))
+                  events=sum(r.get("events", 0) for r, _ in rs), wall_s=wall)
         judge_trace(ctx, et, "expiry (real clock)", kd)
         total += len(EXPIRY_PROGRAMS)
         distinct += len(EXPIRY_PROGRAMS)
+    bg.shutdown()
     ctx.cov["traces_validated_against_impl"] = total
     ctx.cov["evaluations"] = total
     ctx.cov["distinct_nontrivial"] = distinct
